@@ -210,6 +210,18 @@ def translate(repo):
     if len(neg_tests) not in (0, 2):
         raise Untranslatable("add evaluator: unexpected sign tests")
     txt += f"Definition add_rejects_negative_constant : bool := {'true' if neg_tests else 'false'}.\n"
+    # identity: are type and shape also propagated forward (input -> output)?
+    idf = next((n for n in tree.body if isinstance(n, ast.FunctionDef) and n.name == "identity"), None)
+    if idf is None:
+        raise Untranslatable("identity evaluator not found")
+    src = ast.unparse(idf)
+    fwd_type = "output.type = input.type" in src
+    fwd_shape = "output.shape = input.shape" in src
+    if fwd_type != fwd_shape:
+        raise Untranslatable("identity evaluator: forward propagation of type and shape differ from what the model knows")
+    if fwd_type and ("elif output.type is None" not in src or "if output.shape is None" not in src):
+        raise Untranslatable("identity evaluator: unexpected form of the forward propagation")
+    txt += f"Definition identity_forwards_type : bool := {'true' if fwd_type else 'false'}.\n"
     return txt, {"registry": [(d, o, lo, hi) for d, o, lo, hi, _ in registry], "order": order, "returns": n_ret,
                  "guard": guard, "clear_keeps": keep}
 
